@@ -3,7 +3,8 @@
    Model/BufferEdit.v and the word queries of Model/C02_DocQueries.v, and the
    C01 wire entry point that adds them to the operations of BufferEdit. *)
 From Coq Require Import ZArith List Bool.
-From PTK Require Import Lib.Sx Lib.Py Model.Document Model.BufferEdit Model.C02_DocQueries.
+From PTK Require Import Lib.Sx Lib.Py Model.Document Model.BufferEdit Model.C02_DocQueries
+  Model.C01_CaseMap.
 Import ListNotations.
 Open Scope Z_scope.
 
@@ -37,31 +38,11 @@ Definition case_word (F : str -> str) (b : buf) (arg : Z) : res :=
   | e => e
   end.
 
-(* str.upper / lower / title restricted to the characters the harness uses
-   for these commands: ASCII letters and U+00DF (sharp s), the one character
-   of the alphabet whose upper/title image is longer than itself
-   ('\xdf'.upper() = 'SS', '\xdf'.title() = 'Ss'); every other character of
-   the alphabet is uncased. *)
-Definition is_lower (c : Z) : bool := (97 <=? c) && (c <=? 122).
-Definition is_upper (c : Z) : bool := (65 <=? c) && (c <=? 90).
-Definition SHARP_S : Z := 223.
-Definition up (c : Z) : Z := if is_lower c then c - 32 else c.
-Definition low (c : Z) : Z := if is_upper c then c + 32 else c.
-Definition up_s (c : Z) : str := if c =? SHARP_S then [83; 83] else [up c].
-Definition title_s (c : Z) : str := if c =? SHARP_S then [83; 115] else [up c].
-Fixpoint title_from (prev_cased : bool) (s : str) : str :=
-  match s with
-  | [] => []
-  | c :: r =>
-      let cased := is_lower c || is_upper c || (c =? SHARP_S) in
-      (if prev_cased then [low c] else title_s c) ++ title_from cased r
-  end.
-Definition case_F (kind : Z) (s : str) : str :=
-  match kind with
-  | 0 => flat_map up_s s
-  | 1 => map low s
-  | _ => title_from false s
-  end.
+(* str.upper / str.lower / str.title: CPython's algorithms over the tables
+   regenerated from the CPython that runs /repo (Model/C01_CaseMap.v,
+   Gen/C01_CaseMap.v): the whole code space, length-changing images
+   ('\xdf'.upper() = 'SS') and the context-dependent final sigma included. *)
+Definition case_F (kind : Z) (s : str) : str := case_F' kind s.
 
 (* ---------------------------------------------------------------------- *)
 Inductive xop :=
@@ -74,9 +55,19 @@ Definition xstep (b : buf) (x : xop) : res :=
   | XCase k a => case_word (case_F k) b a
   end.
 
+(* KeyPressEvent.arg (key_processor.py): the count typed before the command
+   ("-" alone is -1, no count is 1); "don't exceed a million": a count of
+   1000000 or more is replaced by 1.  The commands below are called through a
+   real KeyPressEvent, so the count on the wire is the typed one. *)
+Definition event_arg (raw : Z) : Z := if 1000000 <=? raw then 1 else raw.
+
 Definition dec_xop (s : sx) : option xop :=
   match s with
-  | L [A 22; A k; A a] => Some (XCase k a)
+  | L [A 22; A k; A a] => Some (XCase k (event_arg a))
+  | L [A 17; A n] => Some (XBase (OBackwardDeleteChar (event_arg n)))
+  | L [A 18; A n] => Some (XBase (ODeleteChar (event_arg n)))
+  | L [A 19; d; A n] =>
+      match as_str d with Some d' => Some (XBase (OSelfInsert d' (event_arg n))) | None => None end
   | _ => match dec_op s with Some o => Some (XBase o) | None => None end
   end.
 
